@@ -369,6 +369,14 @@ def run(ctx):
     missing = [d for d in SECTION8 if d not in cex]
     if missing:
         raise vlib.MachineryError("deviation disjunct(s) %s never change the model's outcome on the BFS spaces" % missing)
+    # vacuity guard: every action of PPModel is taken by the emitted behaviours
+    taken = set()
+    for c in bfs_cases + sim_cases:
+        taken |= set(c.get("acts", []))
+    ctx.cov["actions_taken"] = sorted(taken)
+    need = {"NextFetch", "NextAfter", "ExpandLookup", "ExpandPeek", "ExpandPush", "FuncStart", "FuncTok", "FuncAft", "FuncEndArg", "FuncFinish"}
+    if need - taken:
+        raise vlib.MachineryError("vacuity guard: PPModel actions never taken: %s" % sorted(need - taken))
     # flow A: replay
     seen = set()
     allc = []
